@@ -142,6 +142,24 @@ fn main() {
             }
             println!("PASS");
         }
+        "rdec" => {
+            // vcheck rdec <hex> raw|zlib|gzip : decode with the reference decoder and print the block structure
+            let hexs = &args[2];
+            let bytes: Vec<u8> = (0..hexs.len() / 2).map(|i| u8::from_str_radix(&hexs[2 * i..2 * i + 2], 16).unwrap()).collect();
+            let wrap = match args.get(3).map(|s| s.as_str()) {
+                Some("zlib") => refimpl::rgzh::Wrap::Zlib,
+                Some("gzip") => refimpl::rgzh::Wrap::Gzip,
+                _ => refimpl::rgzh::Wrap::Raw,
+            };
+            let r = refimpl::rgzh::decode_stream(&bytes, wrap, 15, &refimpl::rdec::DecOpts::lenient());
+            println!("verdict {:?} consumed {} out {} bytes", r.verdict, r.consumed, r.out.len());
+            if let Some(b) = &r.body {
+                for k in &b.blocks {
+                    println!("  block type {} last {} start_bit {} lits {} matches {} out {}..{} litmax {} distmax {}", k.btype, k.last, k.start_bit, k.literals, k.matches, k.out_start, k.out_end, k.lit_max_len, k.dist_max_len);
+                }
+                println!("  end_bit {} max_distance {}", b.end_bit, b.max_distance);
+            }
+        }
         "journal" => {
             // vcheck journal <ID> <journal-file> <out-replay-file>
             match read_journal(&args[3]) {
